@@ -89,6 +89,12 @@ type Exec struct {
 	horizon  int
 	res      *Result
 	objs     map[interface{}]int // objects named by first use, so labels are stable across runs
+
+	// Prime, when set by the body, lets every thread run up to its first
+	// scheduling point before any choice is made (sound when thread code
+	// before its first point touches nothing shared: the start point is then
+	// redundant).
+	Prime bool
 }
 
 var active *Exec
@@ -204,6 +210,14 @@ func (x *Exec) loop() {
 	res := x.res
 	nchoice := 0
 	var running *Thread
+	if x.Prime {
+		for _, t := range x.threads {
+			x.cur = t
+			t.wake <- true
+			<-x.parked
+			x.cur = nil
+		}
+	}
 	for {
 		if res.Panic != nil {
 			x.abortAll()
